@@ -242,7 +242,14 @@ func C10_Growth() {
 func C10_Wide() {
 	n := []int{239, 240, 241, 242, 255, 256, 300}[verif.Choice("n", 7)]
 	src := ""
-	what := verif.Choice("what", 5)
+	what := verif.Choice("what", 6)
+	if what == 5 { // block type / name / field constants beyond index 240
+		for i := 0; i < n; i++ {
+			src += "print " + itoa(1000+i) + "\n"
+		}
+		src += "def blk \"nm\" {\n f = 1\n def inner \"in\" {\n  g = f\n }\n}\nbind blk -> struct\n"
+		what = 9
+	}
 	if what == 3 { // constant indices across the 2287/2288 varint boundary
 		n = []int{2286, 2287, 2288, 2289}[n%4]
 		what = 2
@@ -297,5 +304,46 @@ func C10_Wide() {
 	out.Buf = nil
 	_, _, xerr := bcl.Execute(p)
 	verif.Assert(xerr == nil, "executes without error")
+	verif.Reach("checked")
+}
+
+// C10_OperandBytes: CONCRETE INSTANCES - scopes whose last instruction before
+// the scope's closing pop carries an operand byte equal to each opcode number
+// (a local slot k, or constant number k, for k = 0..40): operand bytes must
+// never be taken for instructions by the emitter.
+func C10_OperandBytes() {
+	k := verif.Choice("k", 41)
+	src := ""
+	want := ""
+	switch verif.Choice("what", 3) {
+	case 0: // block scope ending in `var last = v<k>`
+		src = "def t {\n"
+		for i := 0; i <= k; i++ {
+			src += " var v" + itoa(i) + " = " + itoa(i+100) + "\n"
+		}
+		src += " f = v0\n var last = v" + itoa(k) + "\n}\nprint 1\n"
+		want = "1\n"
+	case 1: // block scope ending in a string literal that is constant number k
+		for i := 0; i < k; i++ {
+			src += "eval " + itoa(7000+i) + "\n"
+		}
+		src += "def t {\n var last = \"z\"\n}\nprint 2\n"
+		want = "2\n"
+	default: // toplevel: expression statement ending in local k, then a block
+		for i := 0; i <= k; i++ {
+			src += "var v" + itoa(i) + " = " + itoa(i+100) + "\n"
+		}
+		src += "def t {\n var a = v" + itoa(k) + "\n var b = a\n}\neval v" + itoa(k) + "\nprint v" + itoa(k) + "\n"
+		want = itoa(k+100) + "\n"
+	}
+	out, log := &symio.Writer{}, &symio.Writer{}
+	p, err := bcl.Parse([]byte(src), "src", bcl.OptOutput(out), bcl.OptLogger(log))
+	if err != nil {
+		panic("c10: program rejected: " + log.String())
+	}
+	c10Static(p)
+	_, _, xerr := bcl.Execute(p)
+	verif.Observe("err", errText(xerr))
+	verif.Assert(xerr == nil && out.String() == want, "executes to the expected output")
 	verif.Reach("checked")
 }
